@@ -28,12 +28,16 @@ def constants_block(constants):
 
 
 def mc(module_file, constants, ctx, name, invariants=(), properties=(), view="View", constraint=None, deadlock=False,
-       expect_violation=False, workers=16, timeout=1200, spec="Spec", count=True, extra=""):
+       expect_violation=False, workers=4, timeout=1200, spec="Spec", count=True, extra=""):
     """Exhaustive TLC run. A model that is meant to hold and does not is a machinery failure (the
     code did not change the model); a negative control that passes is one too."""
     cfg = cfg_text(constants, invariants, properties, spec=spec, view=view, constraint=constraint, deadlock=deadlock,
                    extra=extra)
     res = tlc.run(module_file, cfg, tag="mc_" + name, workers=workers, timeout=timeout)
+    if workers > 1 and any("unexpected exception" in e for e in res.errors):
+        # TLC 1.8 occasionally trips over lazily normalised record values shared between workers
+        # ("Attempted to check equality of the function ... with the value ..."); one worker is immune
+        res = tlc.run(module_file, cfg, tag="mc_" + name, workers=1, timeout=timeout)
     ctx.add_tlc(("neg:" if expect_violation else "mc:") + name, res, count=count and not expect_violation)
     if expect_violation:
         if res.violated is None:
